@@ -501,5 +501,44 @@ def r19_9(ctx):
                                                                             if want else "it is taken for a rename file and never checked"), f.loc(arm)))
 
 
+def r19_10(ctx):
+    """R19.10 the global scope is complete, and complete before the first file is checked: (a) in _build_global_deprecated() the
+    rename file of the IDF root is read whether or not a `components` directory exists (no guard on it, no return before it);
+    (b) _prepare_deprecated_options() folds every rename file into the global set itself, eagerly - nothing that updates the
+    set lives in a nested function or generator that runs later, while files are already being checked (the verdict of a file
+    would depend on its position in the run)."""
+    repo = ctx.repo
+    f = repo.func(f"{MOD}:_build_global_deprecated")
+    ctx.analysed(f.qual)
+    fl = Flow(f.node, resolver=Resolver(f.node)).run()
+    reads = [n for n in ast.walk(f.node) if isinstance(n, ast.Call) and ast.unparse(n.func).endswith("extract_lhs_from_file") and n.args and "root_rename" in ast.unparse(n.args[0])]
+    if not reads:
+        reads = [n for n in ast.walk(f.node) if isinstance(n, ast.Call) and ast.unparse(n.func).endswith("extract_lhs_from_file")
+                 and not any(isinstance(p, (ast.For, ast.While)) for p in _anc19(repo, n))]
+    if not reads:
+        raise AnchorError("_build_global_deprecated: the read of the root rename file was not found")
+    gs = fl.guards_at(reads[0]) or set()
+    construct = "_build_global_deprecated/the IDF root's rename file is read whatever else the root contains"
+    extra = sorted((k, p) for k, p in gs if "components" in k or "isdir" in k)
+    (ctx.bad(construct, f"read only under {extra}: an IDF root without `components/` (the cwd fallback in a stand-alone component) loses its framework-wide deprecations", f.loc(reads[0]))
+     if extra else ctx.ok(construct, f.loc(reads[0])))
+    g = repo.func(f"{MOD}:_prepare_deprecated_options")
+    ctx.analysed(g.qual)
+    construct = "_prepare_deprecated_options/the global set is filled before the function returns"
+    lazy = [n for n in ast.walk(g.node) if isinstance(n, (ast.Yield, ast.YieldFrom, ast.Lambda)) or (isinstance(n, (ast.FunctionDef, ast.AsyncFunctionDef)) and n is not g.node)]
+    lazy = [n for n in lazy if any("global_deprecated" in ast.unparse(x) for x in ast.walk(n if not isinstance(n, (ast.Yield, ast.YieldFrom)) else repo.enclosing_stmt(n)))
+            or isinstance(n, (ast.Yield, ast.YieldFrom))]
+    nested_updates = [n for n in ast.walk(g.node) if isinstance(n, (ast.FunctionDef, ast.AsyncFunctionDef)) and n is not g.node and "global_deprecated" in ast.unparse(n)]
+    (ctx.bad(construct, f"`{getattr((nested_updates or lazy)[0], 'name', 'a generator')}` updates the global set when it is run, not when _prepare_deprecated_options() is called: files "
+             "checked before the walk reaches a rename file are judged without it", g.loc((nested_updates or lazy)[0])) if (nested_updates or lazy) else ctx.ok(construct, g.loc()))
+
+
+def _anc19(repo, n):
+    p = repo.parent(n)
+    while p is not None:
+        yield p
+        p = repo.parent(p)
+
+
 def rules():
-    return [("R19.9", r19_9, 6), ("R19.8", r19_8, 2), ("R19.7", r19_7, 3), ("R19.6", r19_6, 1), ("R19.1", r19_1, 3), ("R19.2", r19_2, 7), ("R19.3", r19_3, 4), ("R19.4", r19_4, 3), ("R19.5", r19_5, 8)]
+    return [("R19.10", r19_10, 2), ("R19.9", r19_9, 6), ("R19.8", r19_8, 2), ("R19.7", r19_7, 3), ("R19.6", r19_6, 1), ("R19.1", r19_1, 3), ("R19.2", r19_2, 7), ("R19.3", r19_3, 4), ("R19.4", r19_4, 3), ("R19.5", r19_5, 8)]
